@@ -9,6 +9,7 @@ Alphabet == {O("type", 0, FALSE), O("type", 1, FALSE), O("type", 5, FALSE), O("t
              O("perm", 420, FALSE), O("perm", 33188, FALSE), O("perm", 0, FALSE),
              O("permstr", 493, FALSE), O("permstr", 4095, FALSE), O("permstr", 755, FALSE), O("permstr", 0, TRUE),
              O("mtime", -1, FALSE), O("mtime", 0, FALSE), O("mtime", 999999999, FALSE), O("mtime", 1000000000, FALSE), O("mtime", 5, TRUE),
+             O("mtimet", 0, FALSE), O("mtimet", 1500000000, FALSE),
              O("bs", 0, FALSE), O("bs", 2, FALSE), O("data", 1, FALSE), O("fsize", 7, FALSE), O("hash", 34, FALSE), O("fanout", 256, FALSE)}
 RECURSIVE SeqsUpTo(_)
 SeqsUpTo(k) == IF k = 0 THEN {<<>>} ELSE LET S == SeqsUpTo(k - 1) IN S \cup {Append(s, a) : s \in {t \in S : Len(t) = k - 1}, a \in Alphabet}
